@@ -172,6 +172,22 @@ func checkC20(p *Prog, r *Report) {
 	// a nomination that was not accepted changes nothing: neither the selection
 	// nor the deferred-nomination flag
 	if _, sps := selPaths(p, r, "controlledSelector.HandleBindingRequest"); sps != nil {
+		// a nomination remembered for later is useless without the check whose success applies it
+		nDefer, badDefer := 0, 0
+		for _, sp := range sps {
+			if sp.Has("defer=true") && sp.Vals["lite"] == "false" {
+				nDefer++
+				if !sp.Has("ping") {
+					badDefer++
+					if badDefer <= 2 {
+						r.Fail("HandleBindingRequest: a remembered nomination is followed by the triggered check", sp.EndPos, "on "+sp.String()+" the nomination is remembered (and its value recorded as accepted) but no triggered check is sent on the pair: nothing will ever validate it, the controlled agent never switches while the controlling side already has")
+					}
+				}
+			}
+		}
+		if badDefer == 0 {
+			r.Check(nDefer > 0, "HandleBindingRequest: a remembered nomination is followed by the triggered check", "selection.go", itoa(nDefer)+" paths", "no path remembers a nomination (rule instance lost)")
+		}
 		bad := 0
 		for _, sp := range sps {
 			if (sp.Has("select") || sp.Has("defer=true")) && sp.Vals["accept"] != "true" {
